@@ -79,6 +79,7 @@ class Model:
         self.calls: Dict[str, List[CallSite]] = {}
         self.unresolved: List[CallSite] = []
         self.precondition_lost: List[Tuple[str, ast.AST, str]] = []
+        self.local_imports: Dict[str, Dict[str, Binding]] = {}
         self._build()
 
     # -- construction -------------------------------------------------------------------
@@ -151,6 +152,24 @@ class Model:
                 cb = self.resolve_expr_binding(v.func, mq)
                 if cb is not None and cb.kind == "class":
                     self.var_class[vq] = cb.target
+        # function-local imports (`import random` inside a function body)
+        for fq, fi in self.funcs.items():
+            if fi.is_module_body:
+                continue
+            pkg = fi.rel[:-3].split("/")
+            for n in ast.walk(fi.node):
+                if isinstance(n, ast.Import):
+                    for a in n.names:
+                        nm = a.asname or a.name.split(".")[0]
+                        self.local_imports.setdefault(fq, {})[nm] = Binding("module", a.name) if a.name in self.modules else Binding("external", a.name)
+                elif isinstance(n, ast.ImportFrom):
+                    target = self._import_target(pkg, pkg[-1] == "__init__", n.module, n.level)
+                    for a in n.names:
+                        nm = a.asname or a.name
+                        if target is not None and target in self.scopes and a.name in self.scopes[target]:
+                            self.local_imports.setdefault(fq, {})[nm] = self.scopes[target][a.name]
+                        else:
+                            self.local_imports.setdefault(fq, {})[nm] = Binding("external", f"{n.module}.{a.name}")
         # pass 5: call sites
         for fq, fi in self.funcs.items():
             self.calls[fq] = self._collect_calls(fi)
@@ -375,6 +394,26 @@ class Model:
     def resolve_call(self, n: ast.Call, fi: FuncInfo, locs: Set[str], lt: Dict[str, Set[str]]) -> CallSite:
         f = n.func
         mq = fi.module
+        li = self.local_imports.get(fi.qual)
+        if li:
+            root = f
+            while isinstance(root, ast.Attribute):
+                root = root.value
+            if isinstance(root, ast.Name) and root.id in li:
+                bd = li[root.id]
+                if isinstance(f, ast.Attribute):
+                    chain = []
+                    x = f
+                    while isinstance(x, ast.Attribute):
+                        chain.insert(0, x.attr)
+                        x = x.value
+                    if bd.kind == "external":
+                        bd = Binding("external", ".".join([bd.target] + chain))
+                    elif bd.kind == "module" and len(chain) == 1 and bd.target in self.scopes and chain[0] in self.scopes[bd.target]:
+                        bd = self.scopes[bd.target][chain[0]]
+                    else:
+                        bd = Binding("external", ".".join([bd.target] + chain))
+                return self._site_for_binding(bd, n, fi, core.src(f))
         if isinstance(f, ast.Name):
             if f.id in locs and f.id not in self.scopes[mq]:
                 return CallSite(fi.qual, n, [], "unresolved", name=f.id)
